@@ -2711,6 +2711,38 @@ impl<T: PPGEvaluatorStrategy> PPGEvaluator<T> {
                 .map(|s| (format!("{:?}", s.kind), s.job_id(&self.jobs).to_string()))
                 .collect(),
             gen: self.gen.get(),
+            order: self
+                .jobs
+                .iter()
+                .enumerate()
+                .map(|(idx, j)| {
+                    let nb = |dir: Direction| -> Vec<String> {
+                        if self.dag.contains_node(idx) {
+                            self.dag
+                                .neighbors_directed(idx, dir)
+                                .map(|n| self.jobs[n].job_id.clone())
+                                .collect()
+                        } else {
+                            Vec::new()
+                        }
+                    };
+                    (
+                        j.job_id.clone(),
+                        nb(Direction::Incoming),
+                        nb(Direction::Outgoing),
+                    )
+                })
+                .collect(),
+            dag_nodes: self
+                .dag
+                .nodes()
+                .map(|n| self.jobs[n].job_id.clone())
+                .collect(),
+            topo: self
+                .topo
+                .as_ref()
+                .map(|t| t.iter().map(|n| self.jobs[*n].job_id.clone()).collect())
+                .unwrap_or_default(),
         }
     }
 }
